@@ -34,6 +34,17 @@ int snprintf(char *s, size_t n, const char *fmt, ...)
     return r;
 }
 
+/* libc string->number / substring search used by CAST_* and STR_CONTAINS: CBMC has no model; assumed contracts:
+ * the argument is a NUL-terminated string (checked: its first byte is readable), any result. */
+double strtod(const char *s, char **end) { __CPROVER_assert(__CPROVER_r_ok(s, 1), "libc: strtod argument readable"); if (end) *end = (char *)s; return nondet_double(); }
+long long strtoll(const char *s, char **end, int base) { (void)base; __CPROVER_assert(__CPROVER_r_ok(s, 1), "libc: strtoll argument readable"); if (end) *end = (char *)s; return nondet_i64(); }
+long strtol(const char *s, char **end, int base) { (void)base; __CPROVER_assert(__CPROVER_r_ok(s, 1), "libc: strtol argument readable"); if (end) *end = (char *)s; return (long)nondet_i64(); }
+char *strstr(const char *h, const char *n)
+{
+    __CPROVER_assert(__CPROVER_r_ok(h, 1) && __CPROVER_r_ok(n, 1), "libc: strstr arguments readable");
+    return nondet_bool() ? (char *)h : (char *)0;
+}
+
 #include "nanovm/vm.c"   /* the real code, verbatim */
 
 struct verif_ghost __verif_g;
